@@ -182,6 +182,7 @@ def check(chk):
     _deferred_writes(chk, repo)
     _player_addressing(chk, repo)
     _events_switched_on(chk, repo)
+    _send_all(chk, repo)
     _score_queue_adds(chk, repo)
     _remembered_selection(chk, repo, md, super_chain)
     _restart_list(chk, repo)
@@ -566,6 +567,28 @@ def _events_switched_on(chk, repo):
            text="enable_events body")
 
 
+def _send_all(chk, repo):
+    """DOM-21 (arming, continued): send_all_variable_events posts one event for every simple variable (isinstance test: bools are ints), carrying
+    the current value as new and previous value, no change, and the player's number."""
+    from sa.helpers import inloop_guards, positive
+    from sa.cfg import canon_fact
+    f = repo.func(PL, "Player.send_all_variable_events")
+    chk.analysed(f)
+    cfg = f.cfg()
+    lps = [h for h in cfg.nodes if h.kind == "loop"]
+    sv = [(n, c) for n, c in cfg.calls_named("_send_variable_event")]
+    chk.need(len(lps) == 1 and sv, "DOM-21", "send_all_variable_events posts events for the variables", f)
+    ok = src(lps[0].ast.iter) == "self.vars.items()" and not [y for y in ast.walk(lps[0].ast) if isinstance(y, (ast.Break, ast.Return))]
+    for n, c in sv:
+        g = positive(inloop_guards(cfg, n.id, lps[0].id))
+        base = canon_fact("isinstance(value, (int, str, float))", True)
+        extra = {x for x in g if x != base and x[0] != "isinstance(value, str)"}
+        args = [src(a) for a in c.args]
+        ok = ok and base in g and not extra and args[:3] == ["name", "value", "value"] and args[3] in ("0", "False") and args[4].replace('"', "'") == "self.vars['number']"
+    chk.ob("DOM-21", "send_all_variable_events posts (name, value, value, no change, player number) for every simple variable, all of them", ok, f.where(),
+           construct=f.ident, text="send all variable events")
+
+
 def _player_addressing(chk, repo):
     """IDX-1: which player a write or a read addresses.  Config player numbers are 1-based, player_list is 0-based; without a
     number the current player is meant; machine actions never touch a player; both player-placeholder access paths agree."""
@@ -676,6 +699,7 @@ def battery():
         M("non-game mode devices bound to whoever is up", "mpf/core/mode.py", "                device.device_loaded_in_mode(mode=self, player=self.player)", "                device.device_loaded_in_mode(mode=self, player=self.player or (self.machine.game and self.machine.game.player))", "DOM-22"),
         M("turn start wipes the per-game extra ball count", "mpf/devices/extra_ball_group.py", "        self.player = player\n        player[self._player_var_per_ball] = 0\n\n    def _ball_started", "        self.player = player\n        player[self._player_var_per_game] = 0\n\n    def _ball_started", "DOM-22"),
         M("timer tick interval evaluated once at initialisation", "mpf/devices/timer.py", "        self.tick_secs = self.config['tick_interval'].evaluate([])\n\n        try:", "        try:", "LOAD-13"),
+        M("initial events skip bool variables", PL, "            if isinstance(value, (int, str, float)):\n                if isinstance(value, str):", "            if type(value) in (int, str, float):\n                if isinstance(value, str):", "DOM-21"),
     ]
 
 
